@@ -1,5 +1,331 @@
 package main
 
-// runAudits runs the effect/permission (E tier) audits that belong to a property.
+import (
+	"fmt"
+	"go/token"
+	"go/types"
+	"sort"
+	"strings"
+
+	"golang.org/x/tools/go/ssa"
+)
+
+// Effect audit for property C14 ("after shutdown every API call returns").
+//
+// Contract: a function declared `cancellable` (in a *_verif.go file) promises that every
+// operation in it that can block on a channel is abandoned when a context is cancelled. The
+// audit discharges one obligation per blocking channel operation in the function's own body and
+// in every in-module function it reaches through static calls on the same goroutine (go
+// statements start other goroutines and are not followed; closures passed to the event loop run
+// there and are audited through processLoop's own declaration):
+//
+//   select (blocking)   ok iff one of its cases receives from X.Done() for a context.Context X
+//   plain receive <-c   ok iff c is X.Done() itself, or c is a response channel: a channel made in
+//                       this function (make(chan T[, n])) - the request carrying it has been
+//                       accepted by the event loop, which answers every accepted request exactly
+//                       once (the handlers' "answered" postconditions, property C14)
+//   plain send c <- v   ok iff c is made locally with capacity >= 1, or c is loaded from a field
+//                       named resp/done of a request (answer sent from inside the event loop to a
+//                       waiting or buffered requester)
+//
+// Everything else is a failed obligation. No solver is involved: the obligations are structural
+// (an effect/permission check), generated from the SSA of the current working tree.
+
+type blockingOp struct {
+	fn   *ssa.Function
+	kind string
+	ord  int
+	pos  token.Pos
+	ok   bool
+	why  string
+}
+
 func runAudits(w *World, cs *Contracts, mods *ModAnalysis, prop string, out *checkOutcome) {
+	var roots []string
+	for n, fc := range cs.Funcs {
+		if !fc.Cancellable {
+			continue
+		}
+		for _, p := range fc.Props {
+			if p == prop {
+				roots = append(roots, n)
+			}
+		}
+	}
+	if len(roots) == 0 {
+		return
+	}
+	sort.Strings(roots)
+	var audited []string
+	for _, rn := range roots {
+		root := w.Funcs[rn]
+		if root == nil {
+			out.errs = append(out.errs, "contract drift: cancellable function "+rn+" not found")
+			continue
+		}
+		audited = append(audited, rn)
+		seen := map[*ssa.Function]bool{}
+		var ops []blockingOp
+		var walk func(fn *ssa.Function, depth int)
+		walk = func(fn *ssa.Function, depth int) {
+			if fn == nil || seen[fn] || fn.Blocks == nil || depth > 12 {
+				return
+			}
+			seen[fn] = true
+			ops = append(ops, auditFunc(fn)...)
+			for _, b := range fn.Blocks {
+				for _, ins := range b.Instrs {
+					var c *ssa.CallCommon
+					switch x := ins.(type) {
+					case *ssa.Call:
+						c = &x.Call
+					case *ssa.Defer:
+						c = &x.Call
+					case *ssa.MakeClosure:
+						// a closure made here and called here (deferred functions, local helpers)
+						if cf, ok := x.Fn.(*ssa.Function); ok && closureRunsHere(x) {
+							walk(cf, depth+1)
+						}
+					}
+					if c == nil {
+						continue
+					}
+					if callee := c.StaticCallee(); callee != nil && callee.Pkg != nil && inModule(callee.Pkg.Pkg.Path()) {
+						if fc := cs.Funcs[shortFuncName(callee)]; fc != nil && fc.Cancellable && callee != root {
+							continue // audited on its own
+						}
+						walk(callee, depth+1)
+					}
+				}
+			}
+		}
+		walk(root, 0)
+		for _, op := range ops {
+			out.auditObls++
+			name := fmt.Sprintf("%s#cancellable:%s:%s#%d", rn, shortFuncName(op.fn), op.kind, op.ord)
+			if !op.ok {
+				out.auditFail = append(out.auditFail, auditFailure{Name: name, Desc: op.why + " at " + w.Fset.Position(op.pos).String()})
+			}
+		}
+		if len(ops) == 0 {
+			// a cancellable function without any blocking operation: one trivial obligation so
+			// that the declaration shows up in the counts
+			out.auditObls++
+		}
+	}
+	out.byBackend["effect-audit"] += out.auditObls - len(out.auditFail)
+	out.extra["cancellable_functions_audited"] = audited
+	out.assumptions["effect audit (C14): a select is taken to be cancellable when one case receives from the Done() channel of SOME context; that this context is the one cancelled at shutdown (p.ctx or a caller-supplied context) is not checked"] = true
+	out.assumptions["effect audit (C14): blocking in module dependencies (libp2p host, streams, discovery) and in sync.Mutex/Cond is outside the audit"] = true
+}
+
+func closureRunsHere(mc *ssa.MakeClosure) bool {
+	refs := mc.Referrers()
+	if refs == nil {
+		return false
+	}
+	for _, r := range *refs {
+		switch x := r.(type) {
+		case *ssa.Call:
+			if x.Call.Value == ssa.Value(mc) {
+				return true
+			}
+		case *ssa.Defer:
+			if x.Call.Value == ssa.Value(mc) {
+				return true
+			}
+		case *ssa.Store:
+			if a, ok := x.Addr.(*ssa.Alloc); ok && localOnlyCalled(a) {
+				return true
+			}
+		}
+	}
+	return false
+}
+
+// auditFunc classifies the blocking channel operations of one function body.
+func auditFunc(fn *ssa.Function) []blockingOp {
+	var ops []blockingOp
+	count := map[string]int{}
+	add := func(kind string, pos token.Pos, ok bool, why string) {
+		count[kind]++
+		ops = append(ops, blockingOp{fn: fn, kind: kind, ord: count[kind], pos: pos, ok: ok, why: why})
+	}
+	for _, b := range fn.Blocks {
+		for _, ins := range b.Instrs {
+			switch x := ins.(type) {
+			case *ssa.Select:
+				if !x.Blocking {
+					continue
+				}
+				ok := false
+				for _, st := range x.States {
+					if st.Dir == types.RecvOnly && isCtxDone(st.Chan) {
+						ok = true
+					}
+				}
+				add("select", x.Pos(), ok, "blocking select without a case on a context's Done() channel")
+			case *ssa.Send:
+				ok, why := sendOK(x)
+				add("send", x.Pos(), ok, why)
+			case *ssa.UnOp:
+				if x.Op != token.ARROW {
+					continue
+				}
+				if isCtxDone(x.X) {
+					add("recv", x.Pos(), true, "")
+					continue
+				}
+				if mk := localMakeChan(x.X); mk != nil {
+					add("recv", x.Pos(), true, "")
+					continue
+				}
+				if answerField(x.X) || timerChan(x.X) {
+					add("recv", x.Pos(), true, "")
+					continue
+				}
+				add("recv", x.Pos(), false, "plain receive from a channel that is neither a context's Done() nor a response channel made by this function")
+			}
+		}
+	}
+	return ops
+}
+
+// isCtxDone: v is the result of calling Done() on a context.Context.
+func isCtxDone(v ssa.Value) bool {
+	switch x := v.(type) {
+	case *ssa.Call:
+		if x.Call.IsInvoke() && x.Call.Method.Name() == "Done" {
+			if n, ok := x.Call.Value.Type().(*types.Named); ok && n.Obj().Pkg() != nil && n.Obj().Pkg().Path() == "context" {
+				return true
+			}
+		}
+	case *ssa.UnOp:
+		// load of a local that holds ctx.Done()
+		if a, ok := x.X.(*ssa.Alloc); ok && x.Op == token.MUL {
+			if refs := a.Referrers(); refs != nil {
+				for _, r := range *refs {
+					if s, ok := r.(*ssa.Store); ok && s.Addr == ssa.Value(a) && isCtxDone(s.Val) {
+						return true
+					}
+				}
+			}
+		}
+	case *ssa.Phi:
+		for _, e := range x.Edges {
+			if !isCtxDone(e) {
+				return false
+			}
+		}
+		return len(x.Edges) > 0
+	}
+	return false
+}
+
+// localMakeChan: v is (a load of a local holding) a channel made in this function.
+func localMakeChan(v ssa.Value) *ssa.MakeChan {
+	switch x := v.(type) {
+	case *ssa.MakeChan:
+		return x
+	case *ssa.UnOp:
+		if a, ok := x.X.(*ssa.Alloc); ok && x.Op == token.MUL {
+			if refs := a.Referrers(); refs != nil {
+				var mk *ssa.MakeChan
+				n := 0
+				for _, r := range *refs {
+					if s, ok := r.(*ssa.Store); ok && s.Addr == ssa.Value(a) {
+						n++
+						if m, ok := s.Val.(*ssa.MakeChan); ok {
+							mk = m
+						}
+					}
+				}
+				if n == 1 {
+					return mk
+				}
+			}
+		}
+		// free variable of a closure: the channel made by the enclosing function
+		if fv, ok := x.X.(*ssa.FreeVar); ok && x.Op == token.MUL {
+			if p := fv.Parent().Parent(); p != nil {
+				for _, b := range p.Blocks {
+					for _, ins := range b.Instrs {
+						mc, ok := ins.(*ssa.MakeClosure)
+						if !ok || mc.Fn != ssa.Value(fv.Parent()) {
+							continue
+						}
+						for i, f := range fv.Parent().FreeVars {
+							if f == fv && i < len(mc.Bindings) {
+								if a, ok := mc.Bindings[i].(*ssa.Alloc); ok {
+									if refs := a.Referrers(); refs != nil {
+										for _, r := range *refs {
+											if s, ok := r.(*ssa.Store); ok && s.Addr == ssa.Value(a) {
+												if m, ok := s.Val.(*ssa.MakeChan); ok {
+													return m
+												}
+											}
+										}
+									}
+								}
+							}
+						}
+					}
+				}
+			}
+		}
+	}
+	return nil
+}
+
+// answerField: channel loaded from a field resp/done/FirstMessage of a request structure (the
+// single-answer channels of the request/response protocol between API goroutines and the event loop).
+func answerField(v ssa.Value) bool {
+	isAns := func(n string) bool { return n == "resp" || n == "done" || n == "FirstMessage" }
+	if ld, ok := v.(*ssa.UnOp); ok && ld.Op == token.MUL {
+		if fa, ok := ld.X.(*ssa.FieldAddr); ok {
+			if st, ok := derefStruct(fa.X.Type()); ok {
+				return isAns(st.Underlying().(*types.Struct).Field(fa.Field).Name())
+			}
+		}
+	}
+	if f, ok := v.(*ssa.Field); ok {
+		if st, ok := f.X.Type().Underlying().(*types.Struct); ok {
+			return isAns(st.Field(f.Field).Name())
+		}
+	}
+	return false
+}
+
+// timerChan: the C field of a time.Timer/Ticker or the result of time.After (fires in bounded time).
+func timerChan(v ssa.Value) bool {
+	if ld, ok := v.(*ssa.UnOp); ok && ld.Op == token.MUL {
+		if fa, ok := ld.X.(*ssa.FieldAddr); ok {
+			if st, ok := derefStruct(fa.X.Type()); ok {
+				if n, ok := st.(*types.Named); ok && n.Obj().Pkg() != nil && n.Obj().Pkg().Path() == "time" {
+					return true
+				}
+			}
+		}
+	}
+	if c, ok := v.(*ssa.Call); ok {
+		if callee := c.Call.StaticCallee(); callee != nil && callee.String() == "time.After" {
+			return true
+		}
+	}
+	return false
+}
+
+func sendOK(x *ssa.Send) (bool, string) {
+	if mk := localMakeChan(x.Chan); mk != nil {
+		if c, ok := mk.Size.(*ssa.Const); ok {
+			if n, ok := constInt(c); ok && n >= 1 {
+				return true, ""
+			}
+		}
+		return false, "plain send on an unbuffered channel made by this function"
+	}
+	if answerField(x.Chan) {
+		return true, ""
+	}
+	return false, "plain channel send that no cancellation can abandon (" + strings.TrimSpace(x.String()) + ")"
 }
